@@ -10,11 +10,11 @@ SPEC = dict(
                 "and of the read-fonts lookups (Cmap4/Cmap12 binary search, range_offset/2 + (c-start) - (segcount-i) indexing, gid!=0 filter, "
                 "Cmap::map_codepoint record walk): whenever the builder produces a table, format-4 lookup of every BMP code point except "
                 "U+FFFF, format-12 lookup of every code point and the table-level map_codepoint equal the input mapping; the segment computer's "
-                "output partitions the BMP part of the mapping and never trips its assertion; the encoded delta is gid-cp modulo 2^16 and the "
-                "conversion panics exactly on [32768,65535]; format-12 iteration yields exactly the sorted input pairs and the groups are "
+                "output partitions the BMP part of the mapping and never trips its assertion; the encoded delta is gid-cp modulo 2^16 for every "
+                "delta (the conversion is total since the fix of F-2); format-12 iteration yields exactly the sorted input pairs and the groups are "
                 "ascending, disjoint, maximal; format 12 is emitted iff some char is beyond the BMP (format 4 iff some char is inside); conflicts "
                 "are reported iff real; skrifa Charmap::map through subtable selection equals the mapping, and Charmap::mappings equals the sorted "
-                "input when a format-12 subtable exists (U+10FFFF excluded, see finding). 'Building succeeds' is refuted for the unchanged code (format4_build_refuted, finding F-2). The model is "
+                "input when a format-12 subtable exists (U+10FFFF included). The model is "
                 "tied to the code on every run: ~1300 small mappings, ~450 arbitrary/malformed decoded format-4 tables, ~300 format-12 tables and "
                 "~225 format-14 tables are run through the real code and through the model (segment arrays, groups, lookups, iterations, skrifa "
                 "Charmap answers compared). Independently of the model, every built table is swept over all 65 536 BMP code points and a boundary "
@@ -23,9 +23,8 @@ SPEC = dict(
                 "is checked against the code but no Coq theorem: partial for those."),
     level_note=("Trusted: Coq kernel; the hand-written model coq/C08/Model.v at the level of decoded arrays (its agreement with the Rust code is "
                 "checked by vm_compute on every run, not proved; the byte codec of the compiled table is C04's business and is exercised here only "
-                "through dump_table -> read); the harness generator. Theorems are conditional on from_mappings returning a table: on the unchanged "
-                "tree it panics for valid mappings with gid-cp in [32768,65535] at a delta segment start (F-2) and for BMP mappings whose format-4 "
-                "encoding exceeds 65535 bytes (F-9); Charmap::mappings omits U+10FFFF (new finding)."),
+                "through dump_table -> read); the harness generator. Theorems are conditional on from_mappings returning a table: it still panics for BMP mappings whose format-4 "
+                "encoding exceeds 65535 bytes (known finding F-9). F-2 (i16 delta panic) and the U+10FFFF iterator limit were fixed in /repo; their oracle keys stay live and their inputs are fixed probes of the harness."),
     technique="Coq proof (induction over the segment computer / row builder, binary-search invariants, lia) over hand-written Gallina model + vm_compute correspondence with write-fonts/read-fonts/skrifa + exhaustive-BMP implementation oracle",
     modelled=["write-fonts/src/tables/cmap.rs: Cmap::from_mappings, CmapSubtable::create_format_4, create_format_12, Format4Segment::{len,cost,can_combine,should_combine,combine}, Format4SegmentComputer::{new,make_segment,next_possible_segment,compute}, Cmap4::compute_length",
               "read-fonts/src/tables/cmap.rs: Cmap::map_codepoint, Cmap4::{map_codepoint,lookup_glyph_id,code_range}, Cmap4Iter, Cmap12::{map_codepoint,lookup_glyph_id,group}, Cmap12Iter (+Cmap12IterLimits), Cmap14::map_variant (textbook binary search over well-formed tables)",
@@ -33,7 +32,7 @@ SPEC = dict(
     not_covered=["cmap4_iter_exact (Cmap4Iter yields exactly the BMP pairs plus the sentinel pair (0xFFFF,0)): model + correspondence + oracle only, no Coq theorem",
                  "charmap_mappings_exact for fonts whose selected subtable is format 4 (BMP-only): needs cmap4_iter_exact; model + correspondence + oracle only",
                  "cmap14_answers (default / non-default / absent): implementation-only oracle against the encoded tables plus model correspondence; there is no variation-selector builder in write-fonts/src/tables/cmap.rs",
-                 "totality of the builder (exact characterisation of when from_mappings returns a table): only the delta conversion's panic set is characterised (delta_panics_iff) and refuted by witness; the length / id_range_offset overflow panics (F-9) are modelled and exercised, not characterised by a theorem",
+                 "totality of the builder (exact characterisation of when from_mappings returns a table): the delta conversion is proved total; the length / id_range_offset overflow panics (F-9) are modelled and exercised, not characterised by a theorem",
                  "optimality of the segment computer (not required by the property); byte-level layout of the compiled table (C04); Cmap14Iter, Cmap::closure_glyphs; symbol-encoded fonts (PUA remap) are modelled but never produced by from_mappings"],
     assumptions=["Rust integer semantics as in coq/Lib/RustInt.v; Vec::sort on (char, GlyphId) = the unique ascending arrangement (total order, equal elements identical)",
                  "from_mappings hands create_format_12 strictly ascending char codes (proved: canon_asc), so its HashMap/dedup indirection is the identity and is not modelled",
